@@ -448,9 +448,70 @@ def r56(ctx, fx):
     ctx.floor(rid, 100, "parser bodies scanned")
 
 
+def _irrefutable(p):
+    k = p.get("k")
+    if k == "wild":
+        return True
+    if k == "bind":
+        return not p.get("sub") or _irrefutable(p["sub"])
+    if k == "tuple":
+        return all(_irrefutable(q) for q in p["pats"])
+    if k == "ref":
+        return _irrefutable(p["sub"])
+    return False
+
+
+def _covers_all_some(p):
+    """the pattern matches every `Some(..)` (alternatives of an or-pattern count one by one)"""
+    k = p.get("k")
+    if k == "or":
+        return any(_covers_all_some(q) for q in p["pats"])
+    if k == "ref":
+        return _covers_all_some(p["sub"])
+    if k == "bind":
+        return True if not p.get("sub") else _covers_all_some(p["sub"])
+    if k == "tstruct" and str((p.get("res") or {}).get("path", "")).endswith("Option::Some"):
+        return all(_irrefutable(q) for q in p.get("pats", []))
+    return False
+
+
+def r57(ctx, fx):
+    rid = ctx.rule("R5.7", "an optional group the grammar matched (`opt(tuple((lparen, …, rparen)))`: an `Option` that holds Located elements) is taken apart completely: "
+                   "where a parser function matches on such a value and has a catch-all `_` arm, an earlier arm without guard matches every `Some(..)` — otherwise the "
+                   "`_` arm, written for `None`, also takes the cases the refutable arms leave over (the parentheses are there, the list between them is not), and the "
+                   "text of those elements is in no token and in no diagnostic")
+    n = 0
+    j = 0
+    for f in sorted(fx.all_fns("mos_core"), key=lambda f: f.path):
+        if f.kind != "fn" or not f.path.startswith("mos_core::parser::") or "::tests::" in f.path or "::testing" in f.path or not f.d.get("hir"):
+            continue
+        if "::code_map::" in f.path or "::source::" in f.path:
+            continue
+        for m in lib.hwalk(f.hir["body"]):
+            if m.get("k") != "match" or m.get("src") != "Normal":
+                continue
+            ty = str(lib.strip(m["scrut"]).get("ty", ""))
+            if not (ty.startswith(("core::option::Option<", "std::option::Option<", "Option<")) and "Located<" in ty):
+                continue
+            n += 1
+            wild = [a for a in m["arms"] if a["pat"].get("k") == "wild" and not a.get("guard")]
+            covered = any(_covers_all_some(a["pat"]) and not a.get("guard") for a in m["arms"])
+            key = "%s|match-on-optional-group#%d" % (f.path, n)
+            ctx.inst(rid, key, sample={"fn": f.path, "line": m.get("ln"), "scrutinee": ty[:90], "catch_all": bool(wild), "some_covered": covered})
+            if wild and not covered:
+                j += 1
+                ctx.finding(rid, "%s|catch-all-takes-some#%d" % (f.path, j),
+                            "%s matches on an optional group of parsed elements with a catch-all `_` arm, and no arm matches every `Some(..)`: when the group is there "
+                            "but an inner part is not (`.trace()` — parentheses without a list), the `_` arm drops the elements of the group; their text and the "
+                            "comments attached to them are accepted without a diagnostic and printed back by nothing" % f.path.rsplit("::", 1)[-1],
+                            "%s:%s" % (f.file, m.get("ln")))
+    ctx.inst(rid, "scan", sample={"matches_on_optional_groups": n})
+
+
 def run(ctx):
     fx = ctx.facts
     cg = lib.CallGraph(fx)
+    r57(ctx, fx)
     r51(ctx, fx)
     r52(ctx, fx)
     r53(ctx, fx, cg)
